@@ -101,6 +101,8 @@ func (addr4Engine) Run(ctx *fw.Ctx, cs any) {
 						p := pkt.Request4(xid, mac, mt, pkt.O4(55, 1, 3))
 						// the hardware type is not one of the table's dimensions: it must not matter
 						p.HType = []byte{1, 1, 6, 1, 15, 32, 255, 0}[rng.Intn(8)]
+						p.Opts = append(p.Opts, noise4(rng, true, true)...)
+						rng.Shuffle(len(p.Opts), func(a, b int) { p.Opts[a], p.Opts[b] = p.Opts[b], p.Opts[a] })
 						p.Gi = addrClass(rng, gc)
 						p.Ci = addrClass(rng, cc)
 						if bf {
